@@ -2,7 +2,7 @@
    Only statements + `exact`; proofs: Solver/Sound.v, RulesFacts.v, SolveSound.v, PredStable.v,
    SolveSoundMore.v (proof extension 2), SolveSoundMore3.v (proof extension 3).
    Models: Solver/State.v (acceptance check), Solver/Rules.v + RulesMore.v + RulesMore3.v (abstract
-   rule system).
+   rule system); Solver/TraceConf.v (proof extension 4: verified edge check for trace conformance).
 
    FULL STATEMENT (not proved about the Python code; see strength below):
      every tree returned by ISLaSolver.solve() is closed, a derivation tree of the grammar rooted at
@@ -36,7 +36,21 @@
        defect, see design notes) and proved sound under the guard only_value_matters
        (C01_local_sound_forall_int_partial, C01_forall_int_exh_of_smt); the special-case
        transformation is sound (C01_local_sound_forall_int_transform).
-   WHAT IS STILL PARTIAL: the rule system is an abstraction (no trace conformance); semantic guards
+   WHAT IS STILL PARTIAL: the rule system is an abstraction; TRACE CONFORMANCE (proof extension 4,
+   Solver/TraceConf.v) covers the TREE part of a solver step only: the executable check edge_kind
+   of one recorded edge (parent state tree, successor state tree) of ISLaSolver(debug=True).state_tree
+   is proved sound (C01_trace_edge_sound: a non-zero kind means same root label, grammar-valid
+   successor tree, and completion [Rules.compl] / completion up to node ids / insertion shape
+   [tree guards of r_insert at every prefix of the hint + C13 inserted_lossy]); a completion edge is a
+   refinement step as soon as its constraint part is one (C01_trace_compl_edge_refines), an
+   insertion edge is an instance of r_insert given the clause-level premises
+   (C01_trace_insert_edge_step), and a whole trace of checked edges with the stated constraint
+   parts ends in a valid solution (C01_trace_sound_given_constraints) — so the harness stream
+   checks hypotheses of theorems, not an ad-hoc predicate.  NOT covered: the constraint part of a
+   step (which conjuncts Python adds or drops is not replayed against the rules), and for edges of
+   kind 3 (an SMT answer substituted for a partially expanded tree is re-parsed: its inner nodes get
+   FRESH IDS, so Rules.compl — which compares ids — holds only up to ids; observed on /repo, see
+   design notes) only the tree part up to ids (C01_trace_compl_ni_edge).  Semantic guards
    inside rules: me_settled (universal with match expression over an open in-tree), the compl guards
    of r_smt / r_count_search, only_value_matters, stable_g; and the external Z3 fact above.
    The old premise H_insert (sound_rel of insertion) is UNSATISFIABLE for insertions that move host
@@ -47,8 +61,9 @@
    without a stability side condition adds a non-solution; reproduced on the implementation, known
    finding K_nth), on the implementation for count (K_count) and for `forall int` (enumeration).
    (c) The tie to /repo is the runtime check of every returned tree by sol_check
-   (C01_checked_solution_valid / _complete). *)
-From ISLA Require Import PredStable SolveSoundMore SolveSoundMore3.
+   (C01_checked_solution_valid / _complete) and the trace-conformance stream (edge_kind evaluated in
+   Coq on sampled edges of the debug state tree; theorems C01_trace_...). *)
+From ISLA Require Import PredStable SolveSoundMore SolveSoundMore3 TraceConf.
 From ISLA Require Eval3 Insert InsertFacts InsertSelfMore InsertCtxMore FixedLen.
 From ISLA Require Earley EarleyPrune.
 From Coq Require Import ZArith.
@@ -584,3 +599,183 @@ Example C01_solve_sound3_nonvacuous :
   final ([], Run3Example.t2) /\ Eval3.reach_closedb Run3Example.g = true.
 Proof. exact solve_sound3_example. Qed.
 Print Assumptions C01_solve_sound3_nonvacuous.
+
+(* ================================================================== *)
+(* proof extension 4: TRACE CONFORMANCE (Solver/TraceConf.v)           *)
+(* ================================================================== *)
+(* FULL STATEMENT would be: every step ISLaSolver.solve() performs is an instance of a rule of the
+   abstract system.  Proved here: the executable check the harness evaluates on recorded edges of
+   the debug state tree is SOUND for the TREE part of the rules.  Missing: the constraint part of a
+   step is a stated premise (constraint_part / the clause-level premises of r_insert), not checked. *)
+
+(* vocabulary *)
+Theorem C01_trace_edge_spec_def : forall g t p t1,
+  edge_spec g t p t1 <->
+  (lbl t1 = lbl t /\ wf_tree g t1 /\
+   (compl t t1 \/ compl_ni t t1 \/
+    (InsertCtxMore.inserted_lossy g t t t1 /\ forall p', prefix p' p -> insert_shape g t p' t1))).
+Proof. exact (fun g t p t1 => iff_refl _). Qed.
+Print Assumptions C01_trace_edge_spec_def.
+
+Theorem C01_trace_insert_shape_def : forall g t p t1,
+  insert_shape g t p t1 <->
+  exists host res, subtree t p = Some host /\ wf_tree g res /\ lbl res = lbl host /\
+                   Insert.replace_at t p res = Some t1.
+Proof. exact (fun g t p t1 => iff_refl _). Qed.
+Print Assumptions C01_trace_insert_shape_def.
+
+Theorem C01_trace_compl_ni_def : forall t t', compl_ni t t' <-> compl (zid t) (zid t').
+Proof. exact (fun t t' => iff_refl _). Qed.
+Print Assumptions C01_trace_compl_ni_def.
+
+Theorem C01_trace_edge_okb_def : forall g t p t1,
+  edge_okb g t p t1 = negb (N.eqb (edge_kind g t p t1) 0).
+Proof. exact (fun g t p t1 => eq_refl). Qed.
+Print Assumptions C01_trace_edge_okb_def.
+
+(* the checkers decide the relations of the rule system *)
+Theorem C01_trace_complb_spec : forall t t', complb t t' = true <-> compl t t'.
+Proof. exact complb_spec. Qed.
+Print Assumptions C01_trace_complb_spec.
+
+Theorem C01_trace_complb_ni_spec : forall t t', complb_ni t t' = true <-> compl_ni t t'.
+Proof. exact complb_ni_spec. Qed.
+Print Assumptions C01_trace_complb_ni_spec.
+
+Theorem C01_trace_compl_ni_of_compl : forall t t', compl t t' -> compl_ni t t'.
+Proof. exact compl_ni_of_compl. Qed.
+Print Assumptions C01_trace_compl_ni_of_compl.
+
+(* SOUNDNESS OF THE EDGE CHECK (what the harness stream evaluates) *)
+Theorem C01_trace_edge_sound : forall g t p t1, edge_okb g t p t1 = true -> edge_spec g t p t1.
+Proof. exact edge_okb_sound. Qed.
+Print Assumptions C01_trace_edge_sound.
+
+Theorem C01_trace_kind_equal : forall g t p t1, edge_kind g t p t1 = 1%N -> t1 = t.
+Proof. exact edge_kind1_equal. Qed.
+Print Assumptions C01_trace_kind_equal.
+
+Theorem C01_trace_kind_compl : forall g t p t1,
+  edge_kind g t p t1 = 1%N \/ edge_kind g t p t1 = 2%N -> wf_tree g t1 /\ compl t t1.
+Proof. exact edge_kind12_compl. Qed.
+Print Assumptions C01_trace_kind_compl.
+
+Theorem C01_trace_kind_compl_ni : forall g t p t1,
+  edge_kind g t p t1 = 3%N -> wf_tree g t1 /\ compl_ni t t1.
+Proof. exact edge_kind3_compl_ni. Qed.
+Print Assumptions C01_trace_kind_compl_ni.
+
+Theorem C01_trace_kind_insert : forall g t p t1, edge_kind g t p t1 = 4%N ->
+  InsertCtxMore.inserted_lossy g t t t1 /\ forall p', prefix p' p -> insert_shape g t p' t1.
+Proof. exact edge_kind4_insert. Qed.
+Print Assumptions C01_trace_kind_insert.
+
+(* LINK TO THE INVARIANT MACHINERY *)
+(* a completion edge is a refinement step as soon as its constraint part is one *)
+Theorem C01_trace_compl_edge_refines : forall g cs t cs' t1,
+  compl t t1 -> wf_tree g t1 ->
+  (forall t', compl t1 t' -> is_openT t' = false -> wf_tree g t' -> holds t' cs' -> holds t' cs) ->
+  refines g (fun s s' => s = (cs, t) /\ s' = (cs', t1)) /\
+  refines_wf g (fun s s' => s = (cs, t) /\ s' = (cs', t1)).
+Proof. exact compl_edge_refines_both. Qed.
+Print Assumptions C01_trace_compl_edge_refines.
+
+(* with the constraint unchanged it is rule r_expand *)
+Theorem C01_trace_compl_edge_expand : forall g cs t t1,
+  compl t t1 -> wf_tree g t1 -> core_step g (cs, t) (cs, t1).
+Proof. exact compl_edge_expand. Qed.
+Print Assumptions C01_trace_compl_edge_expand.
+
+(* tree part of Sol along a completion edge, exactly and up to node ids (kind 3) *)
+Theorem C01_trace_compl_edge_solutions : forall g cs' t t1 t',
+  compl t t1 -> Sol g (cs', t1) t' -> compl t t' /\ is_openT t' = false /\ wf_tree g t'.
+Proof. exact compl_edge_solutions. Qed.
+Print Assumptions C01_trace_compl_edge_solutions.
+
+Theorem C01_trace_compl_ni_edge : forall g cs' t t1 t',
+  compl_ni t t1 -> Sol g (cs', t1) t' -> compl_ni t t' /\ is_openT t' = false /\ wf_tree g t'.
+Proof. exact compl_ni_edge_solutions. Qed.
+Print Assumptions C01_trace_compl_ni_edge.
+
+(* an insertion edge is an instance of rule r_insert, and preserves the solver invariant *)
+Theorem C01_trace_insert_edge_step : forall g cst phi cs1 cs2 b v w m body t p t1 cs',
+  insert_shape g t p t1 -> b w = Some (VPos p) -> In (env0 cst, phi) cs' ->
+  insert_step g cst phi (cs1 ++ (b, FExists v (InVar w) m body) :: cs2, t) (cs', t1).
+Proof. exact insert_edge_step. Qed.
+Print Assumptions C01_trace_insert_edge_step.
+
+Theorem C01_trace_insert_edge_inv : forall g start i0 cst phi cs1 cs2 b v w m body t p t1 cs',
+  insert_shape g t p t1 -> b w = Some (VPos p) -> In (env0 cst, phi) cs' ->
+  inv g start i0 cst phi (cs1 ++ (b, FExists v (InVar w) m body) :: cs2, t) ->
+  inv g start i0 cst phi (cs', t1).
+Proof. exact insert_edge_inv. Qed.
+Print Assumptions C01_trace_insert_edge_inv.
+
+(* WHOLE TRACES *)
+(* every tree of the recorded state tree is grammar-valid and rooted in the start symbol *)
+Theorem C01_trace_tree_inv : forall g start (E : list (tree * path * tree)) t0 t,
+  (forall e, In e E -> edge_okb g (fst (fst e)) (snd (fst e)) (snd e) = true) ->
+  wf_tree g t0 -> lbl t0 = start -> reach_tree E t0 t -> wf_tree g t /\ lbl t = start.
+Proof. exact trace_tree_inv. Qed.
+Print Assumptions C01_trace_tree_inv.
+
+Theorem C01_trace_reach_tree_def : forall (E : list (tree * path * tree)) t0 t,
+  reach_tree E t0 t <-> (t = t0 \/ exists t' p, reach_tree E t0 t' /\ In (t', p, t) E).
+Proof. exact reach_tree_def. Qed.
+Print Assumptions C01_trace_reach_tree_def.
+
+(* chains of completion edges compose *)
+Theorem C01_trace_compl_chain : forall g (E : list (tree * path * tree)) t0 t,
+  (forall e, In e E -> let k := edge_kind g (fst (fst e)) (snd (fst e)) (snd e) in
+                       k = 1%N \/ k = 2%N \/ k = 3%N) ->
+  reach_tree E t0 t -> t = t0 \/ (wf_tree g t /\ compl_ni t0 t).
+Proof. exact trace_compl_chain. Qed.
+Print Assumptions C01_trace_compl_chain.
+
+Theorem C01_trace_compl_chain_ids : forall g (E : list (tree * path * tree)) t0 t,
+  (forall e, In e E -> let k := edge_kind g (fst (fst e)) (snd (fst e)) (snd e) in
+                       k = 1%N \/ k = 2%N) ->
+  reach_tree E t0 t -> t = t0 \/ (wf_tree g t /\ compl t0 t).
+Proof. exact trace_compl_chain_ids. Qed.
+Print Assumptions C01_trace_compl_chain_ids.
+
+(* a trace of checked edges (kinds 1, 2, 4) with the stated constraint parts *)
+Theorem C01_trace_checked_step_def : forall g cst phi s s',
+  checked_step g cst phi s s' <->
+  ((exists p, (edge_kind g (snd s) p (snd s') = 1%N \/ edge_kind g (snd s) p (snd s') = 2%N) /\
+              constraint_part g (fst s) (snd s') (fst s')) \/
+   (exists cs1 cs2 b v w m body p p',
+      fst s = cs1 ++ (b, FExists v (InVar w) m body) :: cs2 /\
+      edge_kind g (snd s) p (snd s') = 4%N /\ prefix p' p /\ b w = Some (VPos p') /\
+      In (env0 cst, phi) (fst s'))).
+Proof. exact checked_step_def. Qed.
+Print Assumptions C01_trace_checked_step_def.
+
+Theorem C01_trace_checked_step_preserves : forall g start i0 cst phi,
+  preserves (inv g start i0 cst phi) (checked_step g cst phi).
+Proof. exact checked_step_preserves. Qed.
+Print Assumptions C01_trace_checked_step_preserves.
+
+(* PARTIAL: premises = the constraint parts inside checked_step; kind-3 edges are not admitted *)
+Theorem C01_trace_sound_given_constraints : forall g start i0 cst phi s,
+  is_nt start = true -> defined g start = true ->
+  checked_trace g cst phi (init_state start i0 cst phi) s -> final s ->
+  valid_solution g start cst phi (snd s).
+Proof. exact trace_sound_given_constraints. Qed.
+Print Assumptions C01_trace_sound_given_constraints.
+
+(* non-vacuity: one edge of every kind, two rejected edges; a checked state tree; a checked trace
+   reaching a final state *)
+Example C01_trace_edge_kinds_nonvacuous :
+  edge_kind tc_g tc_t1 [] tc_t1 = 1%N /\ edge_kind tc_g tc_t0 [] tc_t1 = 2%N /\
+  edge_kind tc_g tc_t1 [] tc_t2 = 2%N /\ edge_kind tc_g tc_t1 [] tc_t2' = 3%N /\
+  edge_kind tc_g tc_t2 [] tc_t3 = 4%N /\
+  edge_kind tc_g tc_t2 [] tc_t1 = 0%N /\ edge_kind tc_g tc_t2 [] (Node tc_a 2 false [tc_la]) = 0%N.
+Proof. exact edge_kinds_ex. Qed.
+Print Assumptions C01_trace_edge_kinds_nonvacuous.
+
+Example C01_trace_sound_nonvacuous :
+  checked_trace tc_g tc_cst (FAnd []) (init_state tc_s 1 tc_cst (FAnd [])) ([], tc_t2) /\
+  final ([], tc_t2) /\ valid_solution tc_g tc_s tc_cst (FAnd []) tc_t2.
+Proof. exact trace_sound_ex. Qed.
+Print Assumptions C01_trace_sound_nonvacuous.
